@@ -28,7 +28,7 @@ MANIFEST = {
 
 TX_KINDS = ['valid', 'valid', 'valid', 'conflict', 'duplicate', 'resigned', 'already_mined', 'other_fork',
             'no_outputs', 'out_zero', 'overspend', 'dup_ref', 'null_ref', 'placeholder', 'wrong_key', 'missing',
-            'coinbasedata_sig', 'over_max', 'seen_before_bad_sig', 'seen_before_bad_sig']
+            'coinbasedata_sig', 'over_max', 'seen_before_bad_sig', 'seen_before_bad_sig', 'oversize']
 
 
 def generate(seed, tier):
@@ -170,6 +170,36 @@ def execute(script):
                     for ref, (v, pub) in sorted(ob.utxo.items()):
                         if ref not in hb.utxo and W.key_by_pub(pub) is not None:
                             return W.make_tx([ref], [(v, W.key(a % 12))], [W.key_by_pub(pub)])
+                return None
+            if kind in ('oversize', 'huge_valid'):
+                # a correctly signed, non-overspending transaction just above (or just within) the size of a whole block
+                avail = [r for r in sorted(hb.utxo) if W.key_by_pub(hb.utxo[r][1]) is not None and hb.utxo[r][0] > 0
+                         and not any(r in refs_of(t) for t in ref_pool)]
+                if not avail:
+                    return None
+                per_out = 73
+                for n_in in range(1, min(len(avail), 9) + 1):
+                    refs = avail[:n_in]
+                    total = sum(hb.utxo[r][0] for r in refs)
+                    signers = [W.key_by_pub(hb.utxo[r][1]) for r in refs]
+                    probe = W.make_tx(refs, [(1, W.key(1))] * 10, signers)
+                    base_ = len(probe.serialize()) - 10 * per_out
+                    for n_out in range((rules.MAX_BLOCK_SIZE - base_) // per_out - 1, (rules.MAX_BLOCK_SIZE - base_) // per_out + 3):
+                        if n_out < 1 or total < n_out:
+                            continue
+                        size = base_ + n_out * per_out + 1      # (+1: the count of outputs needs one more octet above 16383... measured below)
+                        want_over = kind == 'oversize'
+                        if (want_over and rules.MAX_BLOCK_SIZE - 80 < size <= rules.MAX_BLOCK_SIZE + 8) or \
+                                (not want_over and rules.MAX_BLOCK_SIZE - 160 < size <= rules.MAX_BLOCK_SIZE):
+                            outs_ = [(1, W.key(j_ % 12)) for j_ in range(n_out - 1)] + [(total - (n_out - 1), W.key(a % 12))]
+                            tx_ = W.make_tx(refs, outs_, signers)
+                            real = len(tx_.serialize())
+                            if want_over and rules.MAX_BLOCK_SIZE < real <= rules.MAX_BLOCK_SIZE + 8:
+                                res.bump('probe:transaction_a_few_bytes_larger_than_a_block')
+                                return tx_
+                            if not want_over and rules.MAX_BLOCK_SIZE - 160 < real <= rules.MAX_BLOCK_SIZE:
+                                res.bump('probe:transaction_almost_as_large_as_a_block')
+                                return tx_
                 return None
             if kind == 'seen_before_bad_sig':
                 # a transaction the node has verified before in this run (it was pooled, or is in a block of any branch) whose
